@@ -930,8 +930,17 @@ def write_touchstone(gt, version=1, unit="GHZ", coord="MA", ptype=None,
     lines = []
     plus = d.chance(0.3)
 
+    bare = d.chance(0.25)
+
     def num(x):
-        return fmt_num(x, numstyle, plus and d.rng.random() < 0.5)
+        s = fmt_num(x, numstyle, plus and d.rng.random() < 0.5)
+        # ".5" / "-.5": a fraction spelled without its leading zero
+        if bare and d.rng.random() < 0.5:
+            if s.startswith("0.") and len(s) > 2 and s[2].isdigit():
+                s = s[1:]
+            elif s[:3] in ("-0.", "+0.") and len(s) > 3 and s[3].isdigit():
+                s = s[0] + s[2:]
+        return s
 
     def fnum(f):
         # the spelling of f/mult that reads back closest to f
